@@ -9,7 +9,7 @@
   the exception propagate — `execute` applies `unwrap_value` to the result at once, and an exception raised out of
   `execute` and a failed Future are the same outcome (`runAsync`).
 -/
-import PyGqlModel.AsyncExecLoop
+import PyGqlModel.Lemmas.ExecLoop
 
 set_option linter.unusedVariables false
 set_option linter.unusedSimpArgs false
@@ -63,5 +63,149 @@ theorem serial_loop_eq_recursive_call (path : Path) : ∀ (args : Flds) (resolve
             | raw c => simp
             | junk => simp
           | _ => simp
+
+
+/-! ### whole runs: `Loop.runAsync = runAsync` for every operation and every schedule -/
+
+/-- `flat` of a `_next` result while the chain is waiting: `unwrap (chain field cb)` with nothing serial below -/
+private def MidShape (N : Node) : Prop :=
+  SFree N = true ∨ ∃ f p key res args, N = .unwrap (.chain f (.serialCb p key res args)) ∧ SFree f = true
+
+/-- the root Future of `execute` -/
+private def TopShape (T : Node) : Prop :=
+  SFree T = true ∨ ∃ f p key res args, T = .chain (.unwrap (.chain f (.serialCb p key res args))) .onFinish ∧ SFree f = true
+
+private theorem serialNext_shape (path : Path) : ∀ (args : Flds) (resolved : List (String × V)) (s : ExecSt),
+    MidShape (flat (serialNext path resolved args s).1)
+  | .nil, resolved, s => by left; simp [serialNext, flat, unwrapCb, SFree]
+  | .cons key mode out args, resolved, s => by
+    have ih := fun r s' => serialNext_shape path args r s'
+    have hsf := resolveField_sfree out (path ++ [.key key]) mode s
+    simp only [serialNext]
+    cases hr : resolveField (path ++ [.key key]) mode out s with
+    | mk r s1 =>
+      rw [hr] at hsf
+      cases r with
+      | exc e => left; simp [flat, SFree]
+      | ok n =>
+        simp only [ResSFree] at hsf
+        cases n with
+        | val x => cases x <;> first | exact ih _ _ | (left; simp [flat, unwrapCb, SFree])
+        | failed e => left; simp [flat, unwrapCb, SFree]
+        | task a b c d => right; exact ⟨_, _, _, _, _, rfl, hsf⟩
+        | chain a b => right; exact ⟨_, _, _, _, _, rfl, hsf⟩
+        | unwrap a => right; exact ⟨_, _, _, _, _, rfl, hsf⟩
+        | gather a b c => right; exact ⟨_, _, _, _, _, rfl, hsf⟩
+        | done r' =>
+          cases r' with
+          | val x =>
+            cases x with
+            | data v =>
+              simp only
+              have h := ih (resolved ++ [(key, v)]) s1
+              cases hn : serialNext path (resolved ++ [(key, v)]) args s1 with
+              | mk rn sn =>
+                rw [hn] at h
+                cases rn with
+                | ok x => simp only [flat_done]; exact h
+                | exc e => left; simp [flat, unwrapCb, SFree]
+            | raw c => right; exact ⟨_, _, _, _, _, rfl, hsf⟩
+            | junk => right; exact ⟨_, _, _, _, _, rfl, hsf⟩
+          | done a => right; exact ⟨_, _, _, _, _, rfl, hsf⟩
+          | failed a => right; exact ⟨_, _, _, _, _, rfl, hsf⟩
+          | task a b c d => right; exact ⟨_, _, _, _, _, rfl, hsf⟩
+          | chain a b => right; exact ⟨_, _, _, _, _, rfl, hsf⟩
+          | unwrap a => right; exact ⟨_, _, _, _, _, rfl, hsf⟩
+          | gather a b c => right; exact ⟨_, _, _, _, _, rfl, hsf⟩
+
+/-- node stored by `chain.on_finish` for a callback outcome -/
+private def resNode : Res Node → Node
+  | .ok x => .done x
+  | .exc e => .failed e
+
+private theorem chainOnFinish_done (ap : ApplyCont) (k : Cont) (r : Node) (s : ExecSt) :
+    chainOnFinish ap (.done r) k s = (resNode (ap k (.ok r.plain) s).1, (ap k (.ok r.plain) s).2) := by
+  unfold chainOnFinish
+  simp only
+  cases ap k (.ok r.plain) s with
+  | mk a b => cases a <;> rfl
+
+private theorem unwrapCb_resNode (r : Res Node) : unwrapCb (resNode r) = flat r := by
+  cases r with
+  | ok x => simpa [resNode, flat] using flat_done x
+  | exc e => rfl
+
+/-- the serial callback fires (or not) on the delivered field node, then `unwrap_future`'s callback: same node, same
+    state under both readings of `_next` -/
+private theorem inner_step (f' : Node) (p : Path) (key : String) (res : List (String × V)) (args : Flds) (s1 : ExecSt)
+    (hf' : SFree f' = true) :
+    (unwrapCb (chainOnFinish applyContL f' (.serialCb p key res args) s1).1, (chainOnFinish applyContL f' (.serialCb p key res args) s1).2)
+      = (unwrapCb (chainOnFinish applyCont f' (.serialCb p key res args) s1).1, (chainOnFinish applyCont f' (.serialCb p key res args) s1).2)
+    ∧ MidShape (unwrapCb (chainOnFinish applyCont f' (.serialCb p key res args) s1).1) := by
+  have pend : ∀ g : Node, SFree g = true → unwrapCb (.chain g (.serialCb p key res args)) = .unwrap (.chain g (.serialCb p key res args)) := by
+    intro g _; simp [unwrapCb]
+  cases f' with
+  | val x => exact ⟨rfl, Or.inr ⟨_, _, _, _, _, rfl, hf'⟩⟩
+  | task a b c d => exact ⟨rfl, Or.inr ⟨_, _, _, _, _, rfl, hf'⟩⟩
+  | chain a b => exact ⟨rfl, Or.inr ⟨_, _, _, _, _, rfl, hf'⟩⟩
+  | unwrap a => exact ⟨rfl, Or.inr ⟨_, _, _, _, _, rfl, hf'⟩⟩
+  | gather a b c => exact ⟨rfl, Or.inr ⟨_, _, _, _, _, rfl, hf'⟩⟩
+  | failed e => exact ⟨rfl, Or.inl (by simp [chainOnFinish, applyCont, applySimple, unwrapCb, SFree])⟩
+  | done r =>
+    rw [chainOnFinish_done, chainOnFinish_done]
+    simp only [unwrapCb_resNode]
+    cases hp : r.plain with
+    | raw c =>
+      refine ⟨?_, Or.inl ?_⟩ <;> simp [applyContL, applyCont, applySimple, flat, unwrapCb, SFree]
+    | junk =>
+      refine ⟨?_, Or.inl ?_⟩ <;> simp [applyContL, applyCont, applySimple, flat, unwrapCb, SFree]
+    | data v =>
+      have hA := serial_loop_eq_recursive_call p args (res ++ [(key, v)]) s1
+      have hS := serialNext_shape p args (res ++ [(key, v)]) s1
+      simp only [applyContL, applyCont]
+      exact ⟨by rw [hA.1, hA.2], hS⟩
+
+private theorem outer_step (N : Node) (s : ExecSt) (hN : MidShape N) :
+    chainOnFinish applyContL N .onFinish s = chainOnFinish applyCont N .onFinish s
+      ∧ TopShape (chainOnFinish applyCont N .onFinish s).1 := by
+  refine ⟨chainOnFinish_congr N .onFinish rfl s, ?_⟩
+  cases hN with
+  | inl h => exact Or.inl (chainOnFinish_sfree applyCont .onFinish (applyCont_sfree .onFinish rfl) rfl N s h)
+  | inr h =>
+    obtain ⟨f, p, key, res, args, rfl, hf⟩ := h
+    exact Or.inr ⟨f, p, key, res, args, rfl, hf⟩
+
+private theorem deliver_top (T : Node) (t : Nat) (s : ExecSt) (hT : TopShape T) :
+    deliver applyContL t T s = deliver applyCont t T s ∧ TopShape (deliver applyCont t T s).1 := by
+  cases hT with
+  | inl h => exact ⟨deliver_congr T t s h, Or.inl (deliver_sfree T t s h)⟩
+  | inr h =>
+    obtain ⟨f, p, key, res, args, rfl, hf⟩ := h
+    simp only [deliver, deliver_congr f t s hf]
+    have hf' := deliver_sfree f t s hf
+    cases hd : deliver applyCont t f s with
+    | mk f' s1 =>
+      rw [hd] at hf'
+      simp only at hf'
+      obtain ⟨hi, hm⟩ := inner_step f' p key res args s1 hf'
+      simp only [Prod.mk.injEq] at hi
+      simp only [hi.1, hi.2]
+      exact outer_step _ _ hm
+
+private theorem runSched_eq : ∀ (schedule : List Nat) (top : Node) (s : ExecSt) (sizes : List Nat), TopShape top →
+    Loop.runSched top s sizes schedule = AsyncExec.runSched top s sizes schedule
+  | [], top, s, sizes, _ => rfl
+  | i :: rest, top, s, sizes, hT => by
+    simp only [Loop.runSched, AsyncExec.runSched]
+    split
+    · rfl
+    · simp only [Loop.stepSched, AsyncExec.stepSched]
+      cases hq : s.queue[i % s.queue.length]? with
+      | none => simp only; exact runSched_eq rest top s _ hT
+      | some t =>
+        simp only
+        obtain ⟨he, hs⟩ := deliver_top top t { s with queue := removeAt s.queue (i % s.queue.length) } hT
+        rw [he]
+        exact runSched_eq rest _ _ _ hs
 
 end PyGql.Props.C09
